@@ -108,6 +108,14 @@ def run(ctx):
     corr["statement_level"] = dict(end_classes=sb["end_classes"], keyword_classes=sb["word_classes"], cases=sb["cases"],
                                    not_modelled=sb["not_modelled"])
     corr["samples"] += sb["samples"]
+    # ... and the model of string_replace_map and of the list / separator / call / keyword-value matchers
+    import srm_corr
+    sr = srm_corr.corr(ctx.seed, ctx.n(40, 600))
+    corr["cases"] += sr["cases"]
+    corr["distinct"] += sr["cases"]
+    corr["disagreements"] += sr["disagreements"]
+    corr["separator_level"] = {k: v for k, v in sr.items() if k not in ("disagreements", "samples")}
+    corr["samples"] += sr["samples"]
     jobs = [(("f2003", "f2008")[k % 2], ctx.seed * 409 + k // 8, k % 4) for k in range(ctx.n(500, 16000))]
     # catalogue of less usual statement forms and of entities named like keywords (whatever parses must round-trip)
     import catalogue
